@@ -96,17 +96,17 @@ NOT_YET = {}
 # extensions made after the second round of seeded changes (appended to the level text)
 EXTRA = {
  "C18": " Every goroutine of the independent phase also builds a small project with response codes no build of the process has seen; a process ended by the runtime ('fatal error: concurrent map ...') is a violation.",
- "C14": "Fourth root spelling: the root file named through a symbolic link whose target lives elsewhere next to decoys; kit.NewJapi must hand only paths of the project directory to the OS. Recorded finding: a cycle is noticed one lap late (cyc in Inc.tla).",
+ "C14": "Fourth root spelling: the root file named through a symbolic link whose target lives elsewhere next to decoys; kit.NewJapi must hand only paths of the project directory to the OS. Recorded finding: a cycle is noticed one lap late (cyc in Inc.tla). Names relative to the directory of the including file: the random projects of MC_IncRand (six files in two directories; a file of sub/ naming a sibling, the parent directory, or a file that only exists one level up) are judged by Inc.tla and replayed with the file-access hook.",
  "C16": " The mechanism-state graph also runs on the type graphs of MC_C01types, the documents of MC_C10sites and the block-model documents (every 5th quick / all thorough).",
  "C04": " Matrix as built now: 15 defect classes (plus unsatisfiable-regex, regex-matching-empty); sweeps also run over the documents of MC_C10sites and MC_C01types. Positions '*-full' put the schema under test among valid companions of every other kind on one method (Path, Query, request headers / body, response headers / body). The shape check descends into the rules of every node (a rule that is an object / array carries a list of children; null is not a list); body objnull has a rule whose value is an empty array.",
  "C10": " MC_C10sites: one of 11 macro bodies pasted at 1-3 of 5 sites (275 documents beyond the length bound); model invariant CatalogTransparent (Build(macro form) = Build(in-place form)).",
  "C09": " Base document d6 (an explicit context of the includer around an implicit URL and a method with its own path); model invariant CatalogSame (catalog of the split tree = catalog of the unsplit tree). Base document d7 (two resources of identical layout with different Description texts: after two cuts the texts lie at the same offsets of two files); 7 base documents in all. d8 (two types that need each other, the first with a rule error) and d9 (Headers typed by a non-object): 9 base documents; errors inside bodies are mapped line by line. Base document d10 is rejected only because MACRO definitions precede JSIGHT.",
- "C02": " The schema skeleton also lists the first-level children of every schema (key, token type, JSight type). Compile-phase path checks are modelled (root-level URL / methods without Path are parsed before the build phase; errors of a Path's parent path stand on Path). The split projects of MC_C09 are replayed as layouts that distribute the text over INCLUDEd files.",
- "C01": " Type graphs: every graph over 2 (quick, 2 025 cases) / 3 (thorough, 140 625) user types with bodies {leaf, reference, or, property, optional property, array item, allOf} crossed with 9 sites using @t1 (Path by reference / by property, Headers, Query, Request, response, JSON-RPC, another TYPE) is built in crash-isolated workers (MC_C01types; model invariant: the walk with a visited set needs <= N unfoldings). Later additions: type-body shapes any / empty / regex / scalar; 'or' diamonds of depth 8-22 timed against the per-case limit (known finding: exponential walk in the dependency); fuzz family of long lines made of one repeated byte around the 200-byte quote limit; macro diamonds (MC_C01macro: the model states that the expanded tree has 2^n copies, depths 8-20 are timed; known finding). Workers carry a per-case watchdog (60 s): a build that does not come back ends the worker at once and is attributed to its case; after 6 dead workers a step stops exploring.",
+ "C02": " The schema skeleton also lists the first-level children of every schema (key, token type, JSight type). Compile-phase path checks are modelled (root-level URL / methods without Path are parsed before the build phase; errors of a Path's parent path stand on Path). The split projects of MC_C09 are replayed as layouts that distribute the text over INCLUDEd files. Beyond the exhaustive bound: random behaviours of the same specification (tlc -simulate, seeded) - documents of up to 5 blocks around the dependency prelude, every one-block extension of every visited prefix emitted (about 5 000 documents quick, 150 000 thorough) and replayed like the others.",
+ "C01": " Type graphs: every graph over 2 (quick, 2 025 cases) / 3 (thorough, 140 625) user types with bodies {leaf, reference, or, property, optional property, array item, allOf} crossed with 9 sites using @t1 (Path by reference / by property, Headers, Query, Request, response, JSON-RPC, another TYPE) is built in crash-isolated workers (MC_C01types; model invariant: the walk with a visited set needs <= N unfoldings). Later additions: type-body shapes any / empty / regex / scalar; 'or' diamonds of depth 8-22 timed against the per-case limit (known finding: exponential walk in the dependency); fuzz family of long lines made of one repeated byte around the 200-byte quote limit; macro diamonds (MC_C01macro: the model states that the expanded tree has 2^n copies, depths 8-20 are timed; known finding). Workers carry a per-case watchdog (60 s): a build that does not come back ends the worker at once and is attributed to its case; after 6 dead workers a step stops exploring. The random include projects of MC_IncRand (six files, two directories) go through crash-isolated workers too.",
  "C03": " Undefined tag inserted at every position of every Tags list. Annotation fault on a Body whose parent is a Request. As built now: 216 cases (quick); blocks urlTT (URL-level Tags every method overrides) and respB (bodies given by child Body directives); the 'second' fault class includes Body. Base b4 begins with a root-level PASTE whose macro is defined later; a second Tags directive is among the duplicate faults.",
  "C05": " Quick tier: the 2-block generator also places a prelude of dependency blocks (tags, type, enum, macro) before or after the chosen blocks, so blocks with dependencies and declarations after use are reached. The invariants are evaluated on every catalog the real code produces, also when the specification rejects the document (block rpcDup: one JSON-RPC method twice).",
  "C06": " Histories: every history of <= 2 (quick, 8 190) / 3 (thorough, reduced menus) builds over 5 x 3 file states and lists of option values from a process-wide pool (MC_C06); outcome class predicted by the model, bytes compared with a fresh process using freshly made options. The sweep includes the documents the model rejects (the error must be the same in every rebuild). Concurrent builds: 16 goroutines rebuild block-model documents in tight loops (40 / 400 rounds x 25 rebuilds); every result must equal the lone build.",
- "C07": " Contexts across files: MC_C07 variant 'contexts' (explicit / implicit contexts, methods with own path, ')' on both sides of an INCLUDE; 21 931 projects). The replay rotates the line-break convention of all files of a project (LF, CRLF, CR) as well as the spelling of the root path. Third rotation: every line padded with trailing blanks to 199 / 200 / 201 / 260 bytes (limit of the error quote). Build-phase errors in split projects: the split projects of MC_C09 (incl. types that need each other with a rule error, Headers typed by a non-object) are replayed and every reported place must be a real one. Variant aggr of MC_C07: four files, menus of INCLUDEs and one TYPE - chains of equal depth through files that consist of INCLUDEs only. Every fourth group of projects lives in a directory 280 bytes deep. Errors at the end of the file are checked for line and column too.",
+ "C07": " Contexts across files: MC_C07 variant 'contexts' (explicit / implicit contexts, methods with own path, ')' on both sides of an INCLUDE; 21 931 projects). The replay rotates the line-break convention of all files of a project (LF, CRLF, CR) as well as the spelling of the root path. Third rotation: every line padded with trailing blanks to 199 / 200 / 201 / 260 bytes (limit of the error quote). Build-phase errors in split projects: the split projects of MC_C09 (incl. types that need each other with a rule error, Headers typed by a non-object) are replayed and every reported place must be a real one. Variant aggr of MC_C07: four files, menus of INCLUDEs and one TYPE - chains of equal depth through files that consist of INCLUDEs only. Every fourth group of projects lives in a directory 280 bytes deep. Errors at the end of the file are checked for line and column too. Beyond the bounds of the model checker: 3 000 (quick) / 60 000 (thorough) random projects of six files in two directories (INCLUDE names relative to the including file's directory, up to 7 tokens per file, shared files, cycles, names that leave the directory) are drawn by the harness and logged; MC_IncRand.tla runs Inc.tla on every logged project, checks the model invariants on the run and emits the expectation the real build is compared with.",
  "C08": " Explicit closure: besides the full closure every single directive made explicit on its own (an explicit context next to implicitly nested siblings). When the canonical layout already deviates from the model, the other layouts are compared with the canonical layout directly. Random layouts also put trailing blanks behind the last line of a schema / enum / regex body.",
  "C11": " The resolver across an INCLUDE: MC_C07 variant 'contexts' (21 931 projects) replayed for verdict, class and place. Second resolver: for every document and explicit-mask variant of MC_C08doc without PASTE, the tree after the MACRO/PASTE pass must equal the scanned tree without MACROs. The per-edge replay renders with LF, CRLF and CR in turn. An extra '(' (token O) is part of the state graph: it is refused (nothing to open) where no directive has just been written or the directive has its '(' already (action property OpenRule; 2 895 such edges replayed).",
  "C12": " Bounds as built: 7 (quick) / 9 (thorough) bytes over the general menu plus a Description-focused configuration (18 / 20 bytes over a 9-chunk menu: text lines, CR / LF / CRLF, '( )', keywords of 3 bytes); corpus files validated by Trace_Scan. A comments-focused configuration (14 / 18 bytes over '#', '###', '//', '/*', '*/', CR, LF, blank, two keywords, a parameter: 294 000 tapes quick) is replayed as well. Further configurations: a regex body and what follows it in every line-break convention (22 / 25 bytes); what stands behind a schema body, explored without the VIEW (recorded finding behind-a-body). Invariant Closed (a scan that reaches the end of the file without an error has closed every lexeme it has begun) is stated on the model and is not copied from the code: it exposed two scanner defects (regex cut after a backslash, unclosed parenthesised Description), both repaired.",
